@@ -200,6 +200,43 @@ fn token_line(src: &str) -> String {
     out
 }
 
+/// The in-memory file map stands for a file system: `./a.sy`, `a.sy` and `x/../a.sy` name the same file
+/// (the compiler itself compares the paths it builds literally).
+fn lookup_file(files: &HashMap<PathBuf, String>, p: &Path) -> Option<String> {
+    if let Some(s) = files.get(p) {
+        return Some(s.clone());
+    }
+    fn norm(p: &Path) -> PathBuf {
+        let mut out: Vec<std::ffi::OsString> = Vec::new();
+        let mut root = false;
+        for c in p.components() {
+            match c {
+                std::path::Component::RootDir => root = true,
+                std::path::Component::CurDir => {}
+                std::path::Component::ParentDir => {
+                    if out.pop().is_none() && !root {
+                        out.push("..".into());
+                    }
+                }
+                std::path::Component::Normal(x) => out.push(x.to_os_string()),
+                std::path::Component::Prefix(_) => {}
+            }
+        }
+        let mut r = if root { PathBuf::from("/") } else { PathBuf::new() };
+        for x in out {
+            r.push(x);
+        }
+        r
+    }
+    let want = norm(p);
+    for (k, v) in files.iter() {
+        if norm(k) == want {
+            return Some(v.clone());
+        }
+    }
+    None
+}
+
 struct CompileCase {
     std: bool,
     require: Option<String>,
@@ -273,7 +310,7 @@ impl Drop for CompileCase {
 fn compile_once(c: &CompileCase) -> Result<Vec<u8>, Vec<Error>> {
     let files = &c.files;
     let reader = |p: &Path| -> Result<String, Error> {
-        files.get(p).cloned().ok_or_else(|| Error::FileNotFound(p.to_path_buf()))
+        lookup_file(files, p).ok_or_else(|| Error::FileNotFound(p.to_path_buf()))
     };
     let tree = sylt_parser::tree(Path::new(&c.main), reader, c.std)?;
     let mut buf: Vec<u8> = Vec::new();
@@ -288,7 +325,7 @@ fn compile_bytes_line(c: &CompileCase) -> String {
     let r = std::panic::catch_unwind(std::panic::AssertUnwindSafe(|| -> Result<(), Vec<Error>> {
         let files = &c.files;
         let reader = |p: &Path| -> Result<String, Error> {
-            files.get(p).cloned().ok_or_else(|| Error::FileNotFound(p.to_path_buf()))
+            lookup_file(files, p).ok_or_else(|| Error::FileNotFound(p.to_path_buf()))
         };
         let tree = sylt_parser::tree(Path::new(&c.main), reader, c.std)?;
         sylt_compiler::compile(&mut buf, tree, c.require.as_ref())
@@ -349,7 +386,7 @@ fn phases_line(c: &CompileCase) -> String {
     let r = std::panic::catch_unwind(std::panic::AssertUnwindSafe(|| {
         let files = &c.files;
         let reader = |p: &Path| -> Result<String, Error> {
-            files.get(p).cloned().ok_or_else(|| Error::FileNotFound(p.to_path_buf()))
+            lookup_file(files, p).ok_or_else(|| Error::FileNotFound(p.to_path_buf()))
         };
         let tree = match sylt_parser::tree(Path::new(&c.main), reader, c.std) {
             Ok(t) => t,
@@ -397,7 +434,7 @@ fn tree_line_mode(c: &CompileCase, full: bool) -> String {
     let r = std::panic::catch_unwind(std::panic::AssertUnwindSafe(|| {
         let files = &c.files;
         let reader = |p: &Path| -> Result<String, Error> {
-            files.get(p).cloned().ok_or_else(|| Error::FileNotFound(p.to_path_buf()))
+            lookup_file(files, p).ok_or_else(|| Error::FileNotFound(p.to_path_buf()))
         };
         match sylt_parser::tree(Path::new(&c.main), reader, c.std) {
             Ok(t) => format!("TREE {}", hex(sexp::tree_dump_mode(&t, true, full).as_bytes())),
